@@ -3,7 +3,9 @@ package rules
 import (
 	"fmt"
 	"go/types"
+	"regexp"
 	"strings"
+	"sync"
 
 	"golang.org/x/tools/go/ssa"
 
@@ -115,6 +117,79 @@ func presenceTable(c *core.Ctx, p *procInfo, lit *ssa.Function) (rs rows, runs i
 					}
 					return absint.Tuple{absint.NewTok("formatted("+absint.Show(a[0])+")", "text"), absint.Nil{}}
 				}
+				// a small model of reflect over the table's configuration values
+				t.ext["reflect.ValueOf"] = func(ip *absint.Interp, a []absint.Value) absint.Value {
+					rv := absint.NewTok("rv", "reflected")
+					rv.Attr["of"] = a[0]
+					return rv
+				}
+				of := func(v absint.Value) absint.Value {
+					rv, ok := v.(*absint.Tok)
+					if !ok || rv.Class != "reflected" {
+						panic(&absint.Undecided{Msg: "reflect method on an unmodelled value"})
+					}
+					return rv.Attr["of"]
+				}
+				t.ext["(reflect.Value).IsValid"] = func(ip *absint.Interp, a []absint.Value) absint.Value {
+					_, isNil := of(a[0]).(absint.Nil)
+					return absint.Bool(!isNil)
+				}
+				t.ext["(reflect.Value).Kind"] = func(ip *absint.Interp, a []absint.Value) absint.Value {
+					switch of(a[0]).(type) {
+					case absint.Nil:
+						return absint.Int(0)
+					case absint.Bool:
+						return absint.Int(1)
+					case absint.Int:
+						return absint.Int(2)
+					case *absint.MapVal:
+						return absint.Int(21)
+					case *absint.List:
+						return absint.Int(23)
+					case absint.Str:
+						return absint.Int(24)
+					}
+					return absint.Int(25) // an opaque scalar: modelled as a struct-kind value
+				}
+				t.ext["(reflect.Value).Len"] = func(ip *absint.Interp, a []absint.Value) absint.Value {
+					switch x := of(a[0]).(type) {
+					case *absint.MapVal:
+						return absint.Int(len(x.M))
+					case *absint.List:
+						return absint.Int(len(x.Elems))
+					case absint.Str:
+						return absint.Int(len(x))
+					}
+					panic(&absint.GoPanic{Msg: "reflect: call of reflect.Value.Len on a value without length"})
+				}
+				t.ext["(reflect.Value).IsNil"] = func(ip *absint.Interp, a []absint.Value) absint.Value {
+					switch x := of(a[0]).(type) {
+					case *absint.MapVal:
+						return absint.Bool(x.IsNil)
+					case *absint.List:
+						return absint.Bool(x.IsNil && len(x.Elems) == 0)
+					case absint.Nil:
+						panic(&absint.GoPanic{Msg: "reflect: call of reflect.Value.IsNil on zero Value"})
+					}
+					panic(&absint.GoPanic{Msg: "reflect: call of reflect.Value.IsNil on a non-nillable value"})
+				}
+				t.ext["(reflect.Value).IsZero"] = func(ip *absint.Interp, a []absint.Value) absint.Value {
+					switch x := of(a[0]).(type) {
+					case absint.Bool:
+						return absint.Bool(!bool(x))
+					case absint.Int:
+						return absint.Bool(x == 0)
+					case absint.Str:
+						return absint.Bool(x == "")
+					case *absint.MapVal:
+						return absint.Bool(x.IsNil)
+					case *absint.List:
+						return absint.Bool(x.IsNil && len(x.Elems) == 0)
+					case absint.Nil:
+						panic(&absint.GoPanic{Msg: "reflect: call of reflect.Value.IsZero on zero Value"})
+					}
+					return absint.Bool(false)
+				}
 				if setCfg != nil {
 					t.callee[setCfg] = func(ip *absint.Interp, a []absint.Value) absint.Value {
 						recorded = append(recorded, absint.Show(a[1])+"="+absint.Show(a[2]))
@@ -199,10 +274,12 @@ func presenceTable(c *core.Ctx, p *procInfo, lit *ssa.Function) (rs rows, runs i
 }
 
 func c16(c *core.Ctx, r *core.Report) {
-	r.Explanation = "C16 placeholders: (R1) every loop of the expression helper package has a bounded form (range over a value, counted loop, or a loop with an exit guarded by an induction variable compared against a loop-invariant bound): resolution of one text performs a bounded number of substitutions and ends in an error otherwise; (R2/R3/R5) the placeholder callback is interpreted abstractly on every combination of {nil, empty map, map, empty list, list, scalar, empty string, false, 0} x {key, key:default, key:, key:a:b} x parse/format outcomes and compared with the presence rule, the key/default split at the first ':' and error propagation; (R4) the stage substitutes in TagStr, handles the helper's error and commits the result to TagVal, which later stages read. Decides the termination premise and the presence rule; the produced text itself, regexp and viper are trusted."
+	r.Explanation = "C16 placeholders: (R1) every loop of the expression helper package has a bounded form (range over a value, counted loop, or a loop with an exit guarded by an induction variable compared against a loop-invariant bound): resolution of one text performs a bounded number of substitutions and ends in an error otherwise; (R2/R3/R5) the placeholder callback is interpreted abstractly on every combination of {nil, empty map, map, empty list, list, scalar, empty string, false, 0} x {key, key:default, key:, key:a:b} x parse/format outcomes and compared with the presence rule, the key/default split at the first ':' and error propagation; (R7) the substitution engine itself is interpreted on a table of concrete texts (repeated, adjacent, nested, self-introducing, failing and endless expressions) with regexp/strings modelled by their standard implementations; (R6) the ${ } and #{ } helpers are built from brace-free patterns (nested expressions resolve innermost first) and strip exactly their delimiters, and each stage uses its own helper; (R4) the stage substitutes in TagStr, handles the helper's error and commits the result to TagVal, which later stages read. Decides the termination premise and the presence rule; the produced text itself, regexp and viper are trusted."
 	r.Assumptions = []string{"regexp.FindString and strings.Replace terminate", "Binder.Get returns nil for an unset key"}
 	// R1
 	c02Loops16(c, r)
+	c16Delimiters(c, r)
+	replaceAllTable(c, r, "C16.R7")
 	ps := builtinProcessors(c)
 	quotes := withRole(ps, "quote", true)
 	if !r.Floor("C16.R2", "registered placeholder processor", len(quotes), 1) {
@@ -276,4 +353,243 @@ func c02Loops16(c *core.Ctx, r *core.Report) {
 		}
 	}
 	r.Floor("C16.R1", "el.Helper implementations", n, 1)
+}
+
+// c16Delimiters: R6 — each expression helper is built from a pattern <open>[^{}]*} whose content cannot contain
+// braces (so nested expressions are resolved innermost first) and strips exactly the delimiters; the placeholder
+// processor uses the ${ } helper and the expression processor the #{ } helper.
+func c16Delimiters(c *core.Ctx, r *core.Report) {
+	newEl := c.Func("util/el", "newEl")
+	type hv struct {
+		name, open string
+	}
+	ctors := map[*ssa.Function]string{}
+	for _, h := range []hv{{"NewQuote", "${"}, {"NewExpr", "#{"}} {
+		fn := c.Func("util/el", h.name)
+		cons := "delimiters:el." + h.name
+		if fn == nil || newEl == nil {
+			r.Undecided("C16.R6", cons, "", "helper constructor not found")
+			continue
+		}
+		ctors[fn] = h.open
+		ok, detail := false, "constructor shape not recognised"
+		for _, ci := range core.Calls(fn) {
+			if !core.IsCallTo(ci.Common(), newEl) {
+				continue
+			}
+			a := ci.Common().Args
+			pre, ok1 := core.ConstInt(a[1])
+			suf, ok2 := core.ConstInt(a[2])
+			var pat string
+			okPat := false
+			if call, isCall := core.Norm(a[0]).(*ssa.Call); isCall && core.IsExtCall(call.Common(), "regexp.MustCompile") {
+				pat, okPat = core.ConstString(call.Common().Args[0])
+			}
+			if !ok1 || !ok2 || !okPat {
+				continue
+			}
+			const body = "[^{}]*}"
+			if !strings.HasSuffix(pat, body) {
+				detail = "pattern " + pat + " does not end in " + body
+				continue
+			}
+			open := strings.ReplaceAll(strings.TrimSuffix(pat, body), "\\", "")
+			ok = open == h.open && int(pre) == len(open) && suf == 1
+			detail = fmt.Sprintf("pattern %q, strips %d+%d characters", pat, pre, suf)
+		}
+		r.Check(ok, "C16.R6", cons, c.FnPos(fn), "the helper matches "+h.open+"...} with brace-free content and strips exactly its delimiters: "+detail)
+	}
+	// content() slices by the stored lengths
+	// processors use the right helper
+	for _, p := range builtinProcessors(c) {
+		want := ""
+		switch {
+		case p.Roles["quote"]:
+			want = "${"
+		case p.Roles["expr"]:
+			want = "#{"
+		default:
+			continue
+		}
+		stores, _ := c.FieldAccesses(p.T, "el")
+		ok := len(stores) > 0
+		for _, st := range stores {
+			good := false
+			for _, o := range core.Origins(st.Store.Val, nil) {
+				if call, isCall := o.(*ssa.Call); isCall {
+					if cal := call.Common().StaticCallee(); cal != nil && ctors[cal] == want {
+						good = true
+					}
+				}
+			}
+			if !good {
+				ok = false
+			}
+		}
+		r.Check(ok, "C16.R6", "helper-of:"+p.Name(), c.Pos(p.T.Obj().Pos()), "the processor is wired with the "+want+" } helper")
+	}
+}
+
+// replaceAllTable: the substitution engine resolves every expression of a text completely - repeated, adjacent,
+// nested (innermost first) and those introduced by a replacement - calls the callback with the content between the
+// delimiters, propagates its error and gives up with an error on endless substitution.  The helper is built by
+// interpreting its constructor; regexp and strings functions are modelled by their standard implementations on the
+// concrete texts of the table.
+var rxCache sync.Map
+
+func replaceAllTable(c *core.Ctx, r *core.Report, rule string) {
+	type hc struct {
+		ctor  string
+		open  string
+		cases []struct{ in, want string }
+	}
+	dict := map[string]string{"a": "1", "b": "2", "env": "dev", "limits.dev": "42", "x": "${y}", "y": "7", "empty": "", "self": "${self}", "grow": "g${grow}", "hash": "#{1}"}
+	helpers := []hc{
+		{"NewQuote", "${", []struct{ in, want string }{
+			{"plain", "plain"}, {"${a}", "1"}, {"p${a}q${b}r${a}", "p1q2r1"}, {"${limits.${env}}", "42"}, {"#{${limits.${env}}*2}", "#{42*2}"},
+			{"${x}", "7"}, {"${empty}${a}", "1"}, {"${a}${limits.${env}}", "142"}, {"${boom}", "ERROR"}, {"${self}", "ERROR"}, {"${grow}", "ERROR"}, {"${hash}", "#{1}"}}},
+		{"NewExpr", "#{", []struct{ in, want string }{{"#{a}+#{b}", "1+2"}, {"${a}", "${a}"}, {"#{limits.#{env}}", "42"}}},
+	}
+	for _, h := range helpers {
+		ctor := c.Func("util/el", h.ctor)
+		cons := "replace-all-table:el." + h.ctor
+		if ctor == nil {
+			r.Undecided(rule, cons, "", "helper constructor not found")
+			continue
+		}
+		var impl *ssa.Function
+		for _, T := range c.Implementors(c.Iface("util/el", "Helper")) {
+			if m := c.DeclaredMethod(T, "ReplaceAllContent"); m != nil {
+				impl = m
+			}
+		}
+		if impl == nil {
+			r.Undecided(rule, cons, "", "ReplaceAllContent implementation not found")
+			continue
+		}
+		bad := ""
+		runs := 0
+		for _, cs := range h.cases {
+			var asked []string
+			mkOracle := func() *tbl {
+				t := newTbl(c)
+				str := func(v absint.Value) string {
+					s, ok := v.(absint.Str)
+					if !ok {
+						panic(&absint.Undecided{Msg: "string function on a non-literal: " + absint.Show(v)})
+					}
+					return string(s)
+				}
+				t.ext["regexp.MustCompile"] = func(ip *absint.Interp, a []absint.Value) absint.Value {
+					re := absint.NewTok("regexp", "regexp")
+					re.Attr["pattern"] = a[0]
+					return re
+				}
+				rx := func(v absint.Value) *regexp.Regexp {
+					re, ok := v.(*absint.Tok)
+					if !ok || re.Attr["pattern"] == nil {
+						panic(&absint.Undecided{Msg: "regexp method on something that is not a compiled pattern"})
+					}
+					pat := str(re.Attr["pattern"])
+					if x, ok := rxCache.Load(pat); ok {
+						return x.(*regexp.Regexp)
+					}
+					x, err := regexp.Compile(pat)
+					if err != nil {
+						panic(&absint.GoPanic{Msg: "regexp: " + err.Error()})
+					}
+					rxCache.Store(pat, x)
+					return x
+				}
+				t.ext["(*regexp.Regexp).FindString"] = func(ip *absint.Interp, a []absint.Value) absint.Value {
+					return absint.Str(rx(a[0]).FindString(str(a[1])))
+				}
+				t.ext["(*regexp.Regexp).MatchString"] = func(ip *absint.Interp, a []absint.Value) absint.Value {
+					return absint.Bool(rx(a[0]).MatchString(str(a[1])))
+				}
+				t.ext["(*regexp.Regexp).FindStringIndex"] = func(ip *absint.Interp, a []absint.Value) absint.Value {
+					loc := rx(a[0]).FindStringIndex(str(a[1]))
+					if loc == nil {
+						return &absint.List{IsNil: true}
+					}
+					return &absint.List{Elems: []absint.Value{absint.Int(loc[0]), absint.Int(loc[1])}}
+				}
+				t.ext["strings.Replace"] = func(ip *absint.Interp, a []absint.Value) absint.Value {
+					n, _ := a[3].(absint.Int)
+					return absint.Str(strings.Replace(str(a[0]), str(a[1]), str(a[2]), int(n)))
+				}
+				t.ext["strings.Index"] = func(ip *absint.Interp, a []absint.Value) absint.Value {
+					return absint.Int(strings.Index(str(a[0]), str(a[1])))
+				}
+				t.ext["strings.Contains"] = func(ip *absint.Interp, a []absint.Value) absint.Value {
+					return absint.Bool(strings.Contains(str(a[0]), str(a[1])))
+				}
+				return t
+			}
+			// build the helper by interpreting its constructor
+			t0 := mkOracle()
+			ip0 := absint.New(t0)
+			ip0.IsLog, ip0.InScope = core.IsLogCall, c.InScope
+			o0 := ip0.Run(ctor, nil, nil)
+			if o0.Undecided != nil || o0.Panic != nil || len(o0.Ret) != 1 {
+				bad = "constructor left the model: " + showOutcome(o0)
+				if o0.Undecided != nil {
+					bad += " " + o0.Undecided.Msg
+				}
+				break
+			}
+			helper := o0.Ret[0]
+			cb := absint.NewTok("callback", "func")
+			build := func() (absint.Oracle, []absint.Value, []absint.Value) {
+				asked = nil
+				t := mkOracle()
+				t.dynamic = func(ip *absint.Interp, fn absint.Value, a []absint.Value) (absint.Value, bool) {
+					if fn != absint.Value(cb) {
+						return nil, false
+					}
+					k, _ := a[0].(absint.Str)
+					asked = append(asked, string(k))
+					v, ok := dict[string(k)]
+					if !ok {
+						return absint.Tuple{absint.Str(""), t.newErr("lookup")}, true
+					}
+					return absint.Tuple{absint.Str(v), absint.Nil{}}, true
+				}
+				return t, []absint.Value{helper, absint.Str(cs.in), cb}, nil
+			}
+			check := func(ip *absint.Interp, out absint.Outcome) {
+				got := showOutcome(out)
+				isErr := len(out.Ret) == 2 && isErrTok(out.Ret[1])
+				ok := out.Panic == nil
+				if cs.want == "ERROR" {
+					ok = ok && isErr
+				} else {
+					ok = ok && !isErr && len(out.Ret) == 2 && out.Ret[0] == absint.Value(absint.Str(cs.want))
+				}
+				if !ok {
+					bad = fmt.Sprintf("%s on %q: callback asked %v => %s, want %q", h.ctor, cs.in, firstN(asked, 6), got, cs.want)
+				}
+			}
+			ipFuel := 250000
+			var tape []int
+			for {
+				orc, args, bind := build()
+				ip := absint.New(orc)
+				ip.IsLog, ip.InScope, ip.Tape, ip.Fuel = core.IsLogCall, c.InScope, tape, ipFuel
+				out := ip.Run(impl, args, bind)
+				runs++
+				if out.Undecided != nil {
+					bad = "left the model: " + out.Undecided.Msg
+					break
+				}
+				check(ip, out)
+				next, more := absint.NextTape(padTape(tape, len(ip.Arity)), ip.Arity)
+				if !more {
+					break
+				}
+				tape = next
+			}
+		}
+		r.Check(bad == "", rule, cons, c.FnPos(impl), fmt.Sprintf("every expression of a text is resolved completely - repeated, adjacent, nested innermost-first and those a replacement introduces; callback errors and endless substitution end in an error (%d abstract runs over %d texts) %s", runs, len(h.cases), bad))
+	}
 }
